@@ -85,7 +85,11 @@ def real_size(path):
         for dirpath,dirnames,filenames in walker:
             for filename in filenames:
                 filepath = os.path.join(dirpath, filename)
-                size += os.path.getsize(filepath)
+                try:
+                    size += os.path.getsize(filepath)
+                except OSError as exc:
+                    # E.g. dangling symbolic link
+                    onerror(exc)
         return size
     else:
         try:
